@@ -23,6 +23,9 @@ def graphs(tier):
         [(a, p, b), (b, p, a), (b, q, c), (c, q, zero), (a, p, empty)],
         [(a, p, b), (a, p, c), (b, p, c), (c, q, a), (c, p, zero), (b, q, empty), (a, q, a)],
         [(a, p, b), (b, q, c), (c, p, empty), (c, p, zero), (a, q, zero)],
+        # parallel edges: two nodes linked by several predicates (a negated set must look at each triple's own
+        # predicate), incl. a falsy end and a self loop
+        [(a, p, b), (a, q, b), (b, p, a), (b, q, zero), (b, p, zero), (c, p, c), (c, q, c), (a, URIRef("urn:x:r"), b)],
     ]
     return G
 
@@ -31,7 +34,7 @@ def graphs(tier):
 def paths(tier):
     P, Q = ("iri", "p"), ("iri", "q")
     base = [P, ("inv", P), ("seq", P, Q), ("seq", P, P), ("alt", P, Q), ("*", P), ("+", P), ("?", P), ("neg", ["p"]),
-            ("neg", ["p", "^q"]), ("neg", ["^p"])]
+            ("neg", ["p", "^q"]), ("neg", ["^p"]), ("neg", ["q"]), ("neg", ["p", "q"])]
     lvl2 = [("+", ("alt", P, Q)), ("*", ("seq", P, Q)), ("seq", ("+", P), Q), ("seq", P, ("*", Q)), ("inv", ("+", P)),
             ("alt", ("seq", P, Q), ("inv", Q)), ("?", ("seq", P, P)), ("seq", ("inv", P), P), ("+", ("inv", P)),
             ("seq", ("?", P), ("?", Q)), ("*", ("alt", P, ("inv", Q))), ("seq", P, Q, P), ("seq", ("*", P), ("*", Q)),
